@@ -3,6 +3,7 @@ package main
 import (
 	"encoding/json"
 	"fmt"
+	"os"
 	"sort"
 	"strings"
 	"time"
@@ -188,6 +189,7 @@ func runC13(c *Ctx) {
 			OpenServer()
 			defer CloseServer()
 			r := c.Rng.Fork()
+			cr := r.Fork() // checks draw from their own stream so that checking more often does not change the history
 			w := NewWorld(c, inproc{}, r, true, true, false)
 			NewInstance(w.root, "labelsz", "lsz", nil)
 			w.must("POST", "node/"+w.root+"/lsz/sync", []byte(`{"sync":"ann"}`))
@@ -195,7 +197,7 @@ func runC13(c *Ctx) {
 			checkNode := func(n *wnode) {
 				w.settle()
 				time.Sleep(30 * time.Millisecond)
-				checkAnnViews(c, r, n.uuid, "ann", n.ann, lmB, hist)
+				checkAnnViews(c, cr, n.uuid, "ann", n.ann, lmB, hist)
 				// per-body views and counts
 				bodyOf := func(p [3]int32) uint64 {
 					if n.lm == nil {
@@ -243,9 +245,18 @@ func runC13(c *Ctx) {
 			}
 			for i := 0; i < steps; i++ {
 				w.Step()
-				if i%9 == 8 {
+				if os.Getenv("VERIF_C13_EVERY") != "" {
+					for _, n := range w.open() {
+						before := len(c.Findings)
+						checkNode(n)
+						if len(c.Findings) > before {
+							fmt.Fprintf(os.Stderr, "first finding after step %d: %s\n", i, w.hist[len(w.hist)-1])
+							return
+						}
+					}
+				} else if i%9 == 8 {
 					if o := w.open(); len(o) > 0 {
-						checkNode(o[r.Intn(len(o))])
+						checkNode(o[cr.Intn(len(o))])
 					}
 				}
 			}
